@@ -59,7 +59,10 @@ CLAIMED = {
          "ArithProofs.compile_sound proves, for the core fragment (+, -, literal*, max, min, float(), reads), that Forms.line_value - the "
          "validated model of FloatField.value - is exactly the rounding of that expression. About 75 lines per year; the list of lines proved on the "
          "baseline is frozen (oracles/c02_obligations.json) so that a line silently leaving the fragment or losing its widget is reported. "
-         "A failing lemma triggers a search over stores with the REAL Field.value against an independent evaluation of the instruction.",
+         "A failing lemma triggers a search over stores with the REAL Field.value against an independent evaluation of the instruction. "
+         "Carry sentences of the templates ('enter here and on Form 1040, line 8', 'also include this amount on ... line 4b'; 11 per year) are "
+         "obligations too: the destination line statically reads the source line, through intermediate lines and for every copy of a "
+         "per-person form (reflective reachability over the regenerated reference graph).",
     design_ref='DESIGN.md §4 C02',
     note="Coverage is limited by what the templates say: only IRS forms carry instruction text, only sentences the strict phrase grammar "
          "consumes completely yield an obligation (counted in evidence: ~107 widgets with arithmetic words, ~80 parsed per year), and conditional "
